@@ -225,6 +225,27 @@ func removeIncompleteSSTable(tablePath string) error {
 	return os.RemoveAll(tablePath)
 }
 
+func removeWalFilesOldestFirst(walBasePath string) error {
+	entries, err := os.ReadDir(walBasePath)
+	if err != nil {
+		return err
+	}
+	var names []string
+	for _, e := range entries {
+		if !e.IsDir() {
+			names = append(names, e.Name())
+		}
+	}
+	sort.Strings(names)
+	for _, name := range names {
+		err = os.Remove(filepath.Join(walBasePath, name))
+		if err != nil {
+			return err
+		}
+	}
+	return nil
+}
+
 func (db *DB) replayAndSetupWriteAheadLog() error {
 	walBasePath := filepath.Join(db.basePath, WriteAheadFolder)
 	err := os.MkdirAll(walBasePath, 0700)
@@ -313,6 +334,13 @@ func (db *DB) replayAndSetupWriteAheadLog() error {
 		}
 		elapsedDuration := time.Since(start)
 		log.Printf("done replaying WAL in %v with %d records\n", elapsedDuration, numRecords)
+	}
+
+	// the files have to go oldest first: whatever subset is left behind by a kill is then a suffix of the log, and
+	// replaying a suffix on top of the table that was just flushed from the whole log does not change anything
+	err = removeWalFilesOldestFirst(walBasePath)
+	if err != nil {
+		return err
 	}
 
 	err = os.RemoveAll(walBasePath)
